@@ -526,7 +526,7 @@ def standard_main(engine, tier: str, *, quiet: bool = False, write_ev: bool = Tr
     cfg = engine.TIERS[tier]
     n_runs = int(os.environ.get("VERIF_RUNS", cfg["runs"]))
     budget = float(os.environ.get("VERIF_BUDGET_S", cfg["budget_s"]))
-    timeout_s = int(cfg.get("timeout_s", 120))
+    timeout_s = int(os.environ.get("VERIF_TIMEOUT_S", cfg.get("timeout_s", 120)))
     det_n = int(os.environ.get("VERIF_DET_SAMPLE", cfg.get("det_sample", 32)))
     print(f"[{prop}] tier={tier} VERIF_SEED={seed} runs<={n_runs} budget={budget:.0f}s workers={n_workers()} repo={REPO}", flush=True)
     t0 = time.monotonic()
@@ -536,7 +536,7 @@ def standard_main(engine, tier: str, *, quiet: bool = False, write_ev: bool = Tr
     rc = 0
     # -- extra sub-batches of an engine (e.g. JIT confirmation), same contract
     post = getattr(engine, "post_batch", None)
-    if post is not None:
+    if post is not None and not os.environ.get("VERIF_JIT_CHILD"):
         try:
             more = post(tier, seed, agg)
             if more:
@@ -578,7 +578,7 @@ def standard_main(engine, tier: str, *, quiet: bool = False, write_ev: bool = Tr
         vclass = entry["violation"]["class"]
         plan = entry["plan"]
         note = ""
-        if entry.get("no_minimise") or plan is None:
+        if entry.get("no_minimise") or plan is None or float(os.environ.get("VERIF_SHRINK_S", "1")) <= 0:
             min_plan, min_res, minimised = plan, {"violation": entry["violation"], "digest": entry.get("digest")}, False
         else:
             try:
@@ -658,3 +658,40 @@ def replay_main(engine, path: str) -> int:
         return 1
     print(f"[{engine.PROPERTY}] replay of {path}: no violation of class {want!r} (got {v})")
     return 0
+
+
+# ----------------------------------------------------------------------------------
+# JIT-mode sample (thorough tiers): the same seeded plans, executed with real numba compilation
+# ----------------------------------------------------------------------------------
+
+
+def jit_sample(engine, seed: int, runs: int, budget_s: int, timeout_s: int = 600, start_env: dict | None = None) -> dict:
+    """Run the first `runs` plans of the quick tier once more in a separate `check` process with the
+    JIT enabled (NUMBA_DISABLE_JIT=0).  Everything else - plans, oracles, isolation - is identical.
+    Returns a dict in the post_batch format."""
+    prop = engine.PROPERTY
+    env = dict(os.environ)
+    env.update({"NUMBA_DISABLE_JIT": "0", "VERIF_RUNS": str(runs), "VERIF_BUDGET_S": str(budget_s), "VERIF_NO_DET": "1",
+                "VERIF_SEED": str(seed), "VERIF_REEXEC": "0", "VERIF_MAX_REPORTS": "2", "VERIF_SHRINK_S": "0",
+                "VERIF_TIMEOUT_S": str(timeout_s), "VERIF_JIT_CHILD": "1",
+                "VERIF_EVIDENCE_DIR": os.path.join(ROOT, "replays", "jit-evidence")})
+    env.pop("PYTHONHASHSEED", None)
+    env.update(start_env or {})
+    t0 = time.monotonic()
+    p = subprocess.run([os.path.join(ROOT, "check"), prop, "--tier", "quick"], capture_output=True, env=env, cwd=ROOT,
+                       timeout=budget_s + 4 * timeout_s + 600)
+    out = p.stdout.decode(errors="replace")
+    summary = [line for line in out.splitlines() if line.startswith(f"[{prop}] runs=")]
+    res = {"coverage": {"jit_sample": {"note": "the first plans of the quick tier re-executed with real numba compilation "
+                                       "(NUMBA_DISABLE_JIT=0) in a separate process; same oracles",
+                                       "requested_runs": runs, "exit_code": p.returncode, "wall_s": round(time.monotonic() - t0, 1),
+                                       "summary": summary[-1] if summary else out[-300:]}},
+           "violations": [], "harness_errors": []}
+    if p.returncode == 1:
+        lines = [line for line in out.splitlines() if line.startswith("VIOLATION") or line.strip().startswith(("class=", "detail="))]
+        res["violations"].append({"run_index": -1, "plan": None, "no_minimise": True, "digest": None,
+                                  "violation": violation(f"{prop}/jit-sample", "violation in JIT mode:\n" + "\n".join(lines)[:1500],
+                                                         key=f"{prop}/jit-sample")})
+    elif p.returncode != 0:
+        res["harness_errors"].append({"run_index": -1, "error": "JIT sample failed: " + out[-800:] + p.stderr.decode(errors="replace")[-800:], "plan": None})
+    return res
